@@ -122,6 +122,21 @@ func (h *harness) stateOracle(doc []byte, gen string, cls0 int, dig0 []byte, wit
 				bad = true
 			}
 		}
+		// the exported HashStruct on the parts of the (now completed) payload composes to the same digest
+		if cls0 == 0 && withSign {
+			dh, err1 := eip712.HashStruct(context.Background(), eip712.EIP712Domain, p.Domain, p.Types)
+			var mh []byte
+			var err2 error
+			if p.PrimaryType != eip712.EIP712Domain {
+				var x []byte
+				x, err2 = eip712.HashStruct(context.Background(), p.PrimaryType, p.Message, p.Types)
+				mh = x
+			}
+			if err1 != nil || err2 != nil || !bytes.Equal(kk([]byte{0x19, 0x01}, dh, mh), dig0) {
+				bad = true
+				results = append(results, fmt.Sprintf("HashStruct parts: domain=%x (%v) message=%x (%v)", []byte(dh), err1, mh, err2))
+			}
+		}
 	}()
 	h.st.Hit("state:repeat")
 	if bad {
@@ -146,8 +161,49 @@ func (h *harness) pool(doc []byte, c int, dig []byte) {
 	}
 }
 
+// wideDocs: structs with many members and arrays of many structs (long buffers being hashed while
+// other goroutines build theirs), different values in each
+func wideDocs() [][]byte {
+	var out [][]byte
+	for v := 0; v < 12; v++ {
+		k := 120 + 40*v
+		var ms, vs, es strings.Builder
+		for i := 0; i < k; i++ {
+			if i > 0 {
+				ms.WriteString(",")
+				vs.WriteString(",")
+			}
+			fmt.Fprintf(&ms, `{"name":"m%d","type":"uint64"}`, i)
+			fmt.Fprintf(&vs, `"m%d":%d`, i, i*7919+v)
+		}
+		out = append(out, []byte(`{"types":{"A":[`+ms.String()+`]},"primaryType":"A","message":{`+vs.String()+`}}`))
+		for i := 0; i < k/2; i++ {
+			if i > 0 {
+				es.WriteString(",")
+			}
+			fmt.Fprintf(&es, `{"a":"%d","b":{"c":"0x%x","d":[%d,%d.0]}}`, i+v, i*31+v, i, v)
+		}
+		out = append(out, []byte(`{"types":{"A":[{"name":"l","type":"B[]"}],"B":[{"name":"a","type":"uint32"},{"name":"b","type":"C"}],"C":[{"name":"c","type":"int64"},{"name":"d","type":"uint16[2]"}]},"primaryType":"A","message":{"l":[`+es.String()+`]}}`))
+	}
+	return out
+}
+
 func (h *harness) concurrent(workers, rounds int) {
-	if len(h.cpool) == 0 {
+	var wide []poolEntry
+	for _, d := range wideDocs() {
+		_, _, hcls, dig, _ := runValue(d)
+		wide = append(wide, poolEntry{d, hcls, dig})
+		if hcls != 0 {
+			h.fail("a valid wide document was rejected", "", d, "concurrent/wide", implResult{HCls: hcls})
+		}
+	}
+	h.concurrentOn(append(append([]poolEntry{}, h.cpool...), wide...), workers, rounds)
+	// long buffers only, more rounds: the window between building a buffer and hashing it is widest here
+	h.concurrentOn(wide, workers, 4*rounds)
+}
+
+func (h *harness) concurrentOn(pool []poolEntry, workers, rounds int) {
+	if len(pool) == 0 {
 		return
 	}
 	type bad struct {
@@ -157,7 +213,7 @@ func (h *harness) concurrent(workers, rounds int) {
 	var mu sync.Mutex
 	var bads []bad
 	var wg sync.WaitGroup
-	n := len(h.cpool)
+	n := len(pool)
 	for w := 0; w < workers; w++ {
 		wg.Add(1)
 		go func(w int) {
@@ -165,7 +221,7 @@ func (h *harness) concurrent(workers, rounds int) {
 			for round := 0; round < rounds; round++ {
 				for k := 0; k < n; k++ {
 					// different strides per worker so that different documents meet
-					e := h.cpool[(k*(2*w+1)+w*37+round)%n]
+					e := pool[(k*(2*w+1)+w*37+round)%n]
 					c, d, msg := func() (c int, d []byte, msg string) {
 						defer func() {
 							if x := recover(); x != nil {
@@ -321,7 +377,8 @@ func sweepTypes() []sweepType {
 	return out
 }
 
-func boundaryValues(t intType, r *cv.Rand) []*big.Int {
+// typeValues: values chosen from the type's own width (range checks act on the parsed integer, whatever its spelling)
+func typeValues(t intType) []*big.Int {
 	var vals []*big.Int
 	for _, base := range []*big.Int{t.min(), t.max(), big.NewInt(0)} {
 		for d := int64(-2); d <= 2; d++ {
@@ -336,6 +393,13 @@ func boundaryValues(t intType, r *cv.Rand) []*big.Int {
 			vals = append(vals, pow2(k), add(pow2(k), -1), neg(pow2(k)), add(neg(pow2(k)), -1))
 		}
 	}
+	return vals
+}
+
+// magnitudeValues: values chosen from the machine representations a parser may pass through (the parsing of a text does
+// not know the member's width)
+func magnitudeValues(t intType, r *cv.Rand) []*big.Int {
+	var vals []*big.Int
 	for _, k := range []int{24, 31, 32, 52, 53, 54, 62, 63, 64, 65, 127, 128, 255, 256} {
 		for d := int64(-1); d <= 1; d++ {
 			vals = append(vals, add(pow2(k), d), neg(add(pow2(k), d)))
@@ -352,6 +416,10 @@ func boundaryValues(t intType, r *cv.Rand) []*big.Int {
 		}
 		vals = append(vals, z)
 	}
+	return vals
+}
+
+func dedup(vals []*big.Int) []*big.Int {
 	seen := map[string]bool{}
 	var out []*big.Int
 	for _, z := range vals {
@@ -364,13 +432,12 @@ func boundaryValues(t intType, r *cv.Rand) []*big.Int {
 }
 
 // goNum judges one numeric document on the implementation alone.  Returns class and digest.
-func (h *harness) goNum(t sweepType, sp spell, emitted *int, widthKnown bool) {
+func (h *harness) goNum(t sweepType, sp spell, emitted *int, widthKnown bool, repeat bool) {
 	val := sp.text
 	if !sp.isNum {
 		val = quote(sp.text)
 	}
 	doc := numDoc(t.name, val)
-	h.noteCurrent(doc)
 	ucls, _, hcls, dig, msg := runValue(doc)
 	h.st.Evaluations++
 	c := hcls
@@ -400,7 +467,7 @@ func (h *harness) goNum(t sweepType, sp spell, emitted *int, widthKnown bool) {
 		suspicious = true
 		h.st.Hit("sweep:exact-exotic-refused")
 	}
-	if c == 0 || (c == 1 && ucls == 0) {
+	if repeat && ucls == 0 {
 		h.stateOracle(doc, gen, c, dig, false)
 	}
 	if h.nsweep%7 == 0 || (strings.ContainsAny(sp.text, "eE.") && h.nsweep%3 == 0) {
@@ -413,24 +480,45 @@ func (h *harness) goNum(t sweepType, sp spell, emitted *int, widthKnown bool) {
 	}
 }
 
+// numSweep.  Quick tier: every type x the values of its own width x (3 canonical + 3 rotating other spellings); four
+// types (uint256, int256 and two chosen by the seed) x the width-independent magnitudes x every spelling, with the
+// repeat oracle; the special texts for those four.  Thorough tier: everything for every type.
 func (h *harness) numSweep(r *cv.Rand, thorough bool) {
 	emitted := 0
 	specials := specialSpellings()
-	for ti, t := range sweepTypes() {
+	types := sweepTypes()
+	full := map[string]bool{"uint256": true, "int256": true}
+	full[types[r.Intn(len(types)-2)].name] = true
+	full[types[r.Intn(len(types)-2)].name] = true
+	rot := 0
+	for _, t := range types {
 		widthKnown := t.name != "int" && t.name != "uint"
-		for _, z := range boundaryValues(t.it, r) {
+		all := thorough || full[t.name]
+		for _, z := range dedup(typeValues(t.it)) {
+			sps := spellings(z)
+			for i, sp := range sps {
+				if all || sp.canon || (i+rot)%9 == 0 {
+					h.goNum(t, sp, &emitted, widthKnown, all)
+				}
+			}
+			rot++
+		}
+		if !all {
+			continue
+		}
+		for _, z := range dedup(magnitudeValues(t.it, r)) {
 			for _, sp := range spellings(z) {
-				h.goNum(t, sp, &emitted, widthKnown)
+				h.goNum(t, sp, &emitted, widthKnown, true)
 			}
 		}
 		for _, sp := range specials {
-			h.goNum(t, sp, &emitted, widthKnown)
+			h.goNum(t, sp, &emitted, widthKnown, true)
 		}
-		// the model sees the special texts for a rotating pair of types (they cost no Keccak when refused)
-		if widthKnown && (ti%16 == int(r.Intn(16)) || t.name == "uint256" || t.name == "int64") {
-			for _, sp := range specials {
-				h.addNum(t.it, sp.isNum, sp.text, sp.denotes, false, sp.gen)
-			}
+	}
+	// the model sees the special texts for two types (they cost no Keccak when refused)
+	for _, t := range []intType{{false, 256}, {true, 64}} {
+		for _, sp := range specials {
+			h.addNum(t, sp.isNum, sp.text, sp.denotes, false, sp.gen)
 		}
 	}
 }
@@ -543,7 +631,6 @@ func shapesFor(T string, t intType, z1, z2, z3 *big.Int, k int) []shapeDoc {
 
 func (h *harness) goShape(sd shapeDoc, toModel bool) {
 	doc := []byte(sd.doc)
-	h.noteCurrent(doc)
 	ucls, _, hcls, dig, msg := runValue(doc)
 	h.st.Evaluations++
 	c := hcls
@@ -573,7 +660,7 @@ func (h *harness) goShape(sd shapeDoc, toModel bool) {
 		h.pool(doc, c, dig)
 	}
 	h.nsweep++
-	if toModel && h.nshapeModel < 80 {
+	if toModel && h.nshapeModel < h.shapeCap {
 		h.nshapeModel++
 		h.addDoc(doc, gen)
 	}
@@ -581,6 +668,10 @@ func (h *harness) goShape(sd shapeDoc, toModel bool) {
 
 func (h *harness) shapes(r *cv.Rand, thorough bool) {
 	n := 0
+	h.shapeCap = 90
+	if thorough {
+		h.shapeCap = 600
+	}
 	for _, t := range sweepTypes() {
 		it := t.it
 		big1 := []*big.Int{it.max(), it.min(), add(pow2(53), 1), add(pow2(63), 1), add(pow2(64), 1), neg(add(pow2(63), 1)), add(it.max(), 1), add(it.min(), -1),
@@ -588,10 +679,10 @@ func (h *harness) shapes(r *cv.Rand, thorough bool) {
 		for i := range big1 {
 			z1, z2, z3 := big1[i], big1[(i+1)%len(big1)], big1[(i+3)%len(big1)]
 			for _, sd := range shapesFor(t.name, it, z1, z2, z3, n) {
-				// one in 40 goes to the model as well (all of them in the thorough tier: one in 6)
-				m := 40
+				// one in 41 goes to the model as well (thorough tier: one in 7); the modulus is coprime to the six shapes
+				m := 41
 				if thorough {
-					m = 6
+					m = 7
 				}
 				h.goShape(sd, n%m == 0)
 				n++
@@ -643,5 +734,38 @@ func (h *harness) dimDocs() {
 			`"T10":[],"T9":[],"T1":[],"t2":[],"É":[],"E":[]},"primaryType":"P","message":{"a":{},"b":{},"c":null,"d":{},"e":{},"f":{}}}`,
 	} {
 		h.addDoc([]byte(d), "dims/shape")
+	}
+	// a value that is not an array (absent, null, map, string, number) where the member type is an array
+	for _, tn := range []string{"uint8[]", "uint8[0]", "B[]", "B[1][]", "string[]", "B[0]"} {
+		for _, v := range []string{``, `null`, `{}`, `""`, `0`, `[null]`, `[[]]`, `[]`, `false`} {
+			msg := `{"x":` + v + `}`
+			if v == "" {
+				msg = `{}`
+			}
+			h.addDoc([]byte(`{"types":{"A":[{"name":"x","type":"`+tn+`"}],"B":[{"name":"v","type":"uint8"}]},"primaryType":"A","message":`+msg+`}`), "dims/not-array")
+		}
+	}
+	// explicit null / empty entries for the domain type and the primary type
+	for _, d := range []string{
+		`{"types":{"EIP712Domain":null},"primaryType":"EIP712Domain"}`,
+		`{"types":{"EIP712Domain":null},"primaryType":"EIP712Domain","domain":{}}`,
+		`{"types":{"EIP712Domain":null,"A":[]},"primaryType":"A","message":{}}`,
+		`{"types":{"EIP712Domain":null,"A":[]},"primaryType":"A","domain":{"name":"x"},"message":{}}`,
+		`{"types":{"EIP712Domain":[],"A":[]},"primaryType":"A","domain":{"name":"x"},"message":{}}`,
+		`{"types":{"EIP712Domain":[],"A":[]},"primaryType":"A","domain":null,"message":{}}`,
+		`{"types":{"A":[]},"primaryType":"A","domain":null,"message":{}}`,
+		`{"types":{"A":[]},"primaryType":"A","domain":{"chainId":1},"message":{}}`,
+		`{"types":{"A":null,"EIP712Domain":[]},"primaryType":"A","message":null}`,
+		`{"types":{"A":[{"name":"d","type":"EIP712Domain"}],"EIP712Domain":null},"primaryType":"A","message":{"d":null}}`,
+		`{"types":{"A":[{"name":"d","type":"B"}],"B":null},"primaryType":"A","message":{"d":null}}`,
+		`{"types":{"A":[{"name":"d","type":"B[]"}],"B":null},"primaryType":"A","message":{"d":[]}}`,
+		`{"types":{"A":[{"name":"d","type":"B[]"}],"B":null},"primaryType":"A","message":{"d":[null]}}`,
+		`{"types":{"A":[{"name":"x","type":"uint8"}]},"primaryType":"A","message":{}}`,
+		`{"types":{"A":[{"name":"x","type":"uint8"},{"name":"y","type":"int8"}]},"primaryType":"A","message":{"y":-1}}`,
+		`{"types":{"A":[{"name":"","type":"uint8"}]},"primaryType":"A","message":{"":7}}`,
+		`{"types":{"A":[{"type":"uint8"}]},"primaryType":"A","message":{"":"0x7"}}`,
+		`{"types":{"A":[{"name":"x"}]},"primaryType":"A","message":{"x":1}}`,
+	} {
+		h.addDoc([]byte(d), "dims/null-types")
 	}
 }
